@@ -11,73 +11,99 @@
 (* Bounds: entries in -2..2, n <= 5, p <= 2: |det D'D| <= 2000, every intermediate stays below 2^31 (an overflow is *)
 (* an error of TLC, never a verdict).                                                                             *)
 EXTENDS RatLA, TLC, Json
-CONSTANTS Mode,          \* "all": every (X, y) of shape NN x PP;  "sample": a chain of Samples random cases, n in 3..5, p in 1..2
-          NN, PP, Samples
+CONSTANTS Mode,          \* "all": every (X, y) of shape NN x PP;  "sample": Chains chains of Samples random cases, n in 3..5, p in 1..2
+          NN, PP, Samples, Chains
 Vals == -2..2
 
 \* ---- definitions --------------------------------------------------------------------------------------------------
+RECURSIVE ISumTo(_, _)
+ISumTo(f, m) == IF m = 0 THEN 0 ELSE f[m] + ISumTo(f, m - 1)
+SumInt(f) == ISumTo(f, Len(f))
 Design(X) == [i \in 1..Len(X) |-> <<1>> \o X[i]]
-Gram(D) == [a \in 1..Len(D[1]) |-> [b \in 1..Len(D[1]) |-> LET F[i \in 0..Len(D)] == IF i = 0 THEN 0 ELSE F[i - 1] + D[i][a] * D[i][b] IN F[Len(D)]]]
-Moment(D, y) == [a \in 1..Len(D[1]) |-> << LET F[i \in 0..Len(D)] == IF i = 0 THEN 0 ELSE F[i - 1] + D[i][a] * y[i] IN F[Len(D)] >>]
-FullRank(X) == RankInt(Gram(Design(X))) = Len(X[1]) + 1
-Coef(X, y) == LET D == Design(X)  S == SolveInt(Gram(D), Moment(D, y)) IN [a \in 1..Len(D[1]) |-> S[2][a][1]]
-PredictRow(b, x) == RAdd(b[1], RSum([j \in 1..Len(x) |-> RMul(b[j + 1], RI(x[j]))]))          \* intercept + x . slopes
-Fitted(X, b) == [i \in 1..Len(X) |-> PredictRow(b, X[i])]
-Resid(X, y, b) == [i \in 1..Len(X) |-> RSub(PredictRow(b, X[i]), RI(y[i]))]
-Rss(X, y, b) == RSum([i \in 1..Len(X) |-> RSq(Resid(X, y, b)[i])])
-SumInt(y) == LET F[i \in 0..Len(y)] == IF i = 0 THEN 0 ELSE F[i - 1] + y[i] IN F[Len(y)]
+Gram(D) == [a \in 1..Len(D[1]) |-> [b \in 1..Len(D[1]) |-> SumInt([i \in 1..Len(D) |-> D[i][a] * D[i][b]])]]
+Moment(D, y) == [a \in 1..Len(D[1]) |-> SumInt([i \in 1..Len(D) |-> D[i][a] * y[i]])]
+\* reference definition: rational Gauss-Jordan with row exchange (RatLA)
+CoefGJ(X, y) == LET D == Design(X)  v == Moment(D, y)  S == SolveInt(Gram(D), [a \in 1..Len(v) |-> <<v[a]>>]) IN [a \in 1..Len(v) |-> S[2][a][1]]
+\* second, independent exact solver used for the bulk of the work: Cramer's rule in integer arithmetic; the coefficients are
+\* kept over the common denominator det(D'D) > 0:  b[a] = num[a] / det
+Det2(A) == A[1][1] * A[2][2] - A[1][2] * A[2][1]
+Det3(A) == A[1][1] * (A[2][2] * A[3][3] - A[2][3] * A[3][2]) - A[1][2] * (A[2][1] * A[3][3] - A[2][3] * A[3][1])
+           + A[1][3] * (A[2][1] * A[3][2] - A[2][2] * A[3][1])
+Det(A) == IF Len(A) = 2 THEN Det2(A) ELSE Det3(A)
+Repl(A, c, v) == [i \in 1..Len(A) |-> [j \in 1..Len(A) |-> IF j = c THEN v[i] ELSE A[i][j]]]
+CoefCD(X, y) == LET D == Design(X)  G == Gram(D)  v == Moment(D, y) IN [num |-> [c \in 1..Len(G) |-> Det(Repl(G, c, v))], det |-> Det(G)]
+FullRank(X) == Det(Gram(Design(X))) # 0
+Rat(cd) == [a \in 1..Len(cd.num) |-> Norm(cd.num[a], cd.det)]
+Coef(X, y) == Rat(CoefCD(X, y))
+PredNum(cd, x) == cd.num[1] + SumInt([j \in 1..Len(x) |-> cd.num[j + 1] * x[j]])            \* (intercept + x . slopes) * det
+FittedNum(X, cd) == [i \in 1..Len(X) |-> PredNum(cd, X[i])]
+ResidNum(X, y, cd) == [i \in 1..Len(X) |-> PredNum(cd, X[i]) - y[i] * cd.det]                \* the library's sign: fitted - observed
+Fitted(X, cd) == [i \in 1..Len(X) |-> Norm(PredNum(cd, X[i]), cd.det)]
+Resid(X, y, cd) == LET r == ResidNum(X, y, cd) IN [i \in 1..Len(X) |-> Norm(r[i], cd.det)]
+RssOf(r) == RSum([i \in 1..Len(r) |-> RSq(r[i])])
+Rss(X, y, cd) == RssOf(Resid(X, y, cd))
 Tss(y) == LET n == Len(y)  s == SumInt(y)  q == SumInt([i \in 1..n |-> y[i] * y[i]]) IN Norm(n * q - s * s, n)   \* sum y^2 - (sum y)^2/n
-R2(X, y, b) == RSub(ROne, RDiv(Rss(X, y, b), Tss(y)))
-Sdec2(X, y, b) == RDiv(Rss(X, y, b), RI(Len(X)))
+R2Of(rss, tss) == RSub(ROne, RDiv(rss, tss))
+Sdec2Of(rss, n) == RDiv(rss, RI(n))
 
-\* ---- theorems (each takes the case) -------------------------------------------------------------------------------
-ThNormal(X, y) == LET b == Coef(X, y)  r == Resid(X, y, b) IN
-   /\ RSum(r) = RZero
-   /\ \A j \in 1..Len(X[1]) : RSum([i \in 1..Len(X) |-> RMul(r[i], RI(X[i][j]))]) = RZero
+\* ---- theorems (each takes the case and its coefficients cd = CoefCD(X, y)) -----------------------------------------
+ThSolvers(X, y, cd) == CoefGJ(X, y) = Rat(cd)
+ThNormal(X, y, cd) == LET r == ResidNum(X, y, cd) IN
+   /\ SumInt(r) = 0
+   /\ \A j \in 1..Len(X[1]) : SumInt([i \in 1..Len(X) |-> r[i] * X[i][j]]) = 0
+\* least-squares optimality against every competing coefficient vector over {-1,0,1}
 Competitors(p) == [1..(p + 1) -> {-1, 0, 1}]
-ThMinimal(X, y) == LET b == Coef(X, y)  best == Rss(X, y, b) IN
-   \A c \in Competitors(Len(X[1])) : RLeq(best, Rss(X, y, [a \in 1..(Len(X[1]) + 1) |-> RI(c[a])]))
 LinearIn(X, c) == [i \in 1..Len(X) |-> c[1] + SumInt([j \in 1..Len(X[1]) |-> c[j + 1] * X[i][j]])]
-ThRecover(X) == \A c \in [1..(Len(X[1]) + 1) -> {-1, 2}] :
-   LET yl == LinearIn(X, c)  b == Coef(X, yl) IN b = [a \in 1..(Len(X[1]) + 1) |-> RI(c[a])] /\ Rss(X, yl, b) = RZero
-AffinePairs == {<<2, 1>>, <<-1, 3>>, <<3, -2>>}
-ThAffine(X, y) == LET b == Coef(X, y) IN \A cd \in AffinePairs :
-   LET y2 == [i \in 1..Len(y) |-> cd[1] * y[i] + cd[2]]  b2 == Coef(X, y2) IN
-   /\ b2 = [a \in 1..Len(b) |-> IF a = 1 THEN RAdd(RMul(RI(cd[1]), b[1]), RI(cd[2])) ELSE RMul(RI(cd[1]), b[a])]
-   /\ Sdec2(X, y2, b2) = RMul(RI(cd[1] * cd[1]), Sdec2(X, y, b))
-   /\ (IsZ(Tss(y)) \/ R2(X, y2, b2) = R2(X, y, b))
-\* invertible integer re-mixings of the predictors and their (rational) inverses
-Mixes(p) == IF p = 1 THEN { <<<<2>>>>, <<<<-1>>>>, <<<<3>>>> }
-            ELSE { <<<<1, 1>>, <<0, 1>>>>, <<<<2, 1>>, <<1, 1>>>>, <<<<0, 1>>, <<1, 0>>>>, <<<<1, -1>>, <<1, 1>>>> }
+IntRss(X, y, c) == LET f == LinearIn(X, c) IN SumInt([i \in 1..Len(X) |-> (f[i] - y[i]) * (f[i] - y[i])])
+ThMinimal(X, y, cd) == LET best == Rss(X, y, cd) IN \A c \in Competitors(Len(X[1])) : RLeq(best, RI(IntRss(X, y, c)))
+\* y exactly linear in X is recovered exactly
+RecoverSet(p) == IF p = 1 THEN { <<-1, 2>>, <<2, -1>> } ELSE { <<-1, 2, 2>>, <<2, -1, 1>> }
+ThRecover(X) == \A c \in RecoverSet(Len(X[1])) :
+   LET yl == LinearIn(X, c)  cd == CoefCD(X, yl) IN
+   /\ Rat(cd) = [a \in 1..(Len(X[1]) + 1) |-> RI(c[a])]
+   /\ \A i \in 1..Len(X) : ResidNum(X, yl, cd)[i] = 0
+AffinePairs == {<<2, 1>>, <<-1, 3>>}
+ThAffine(X, y, cd) == LET b == Rat(cd)  rss == Rss(X, y, cd)  t == Tss(y) IN \A k \in AffinePairs :
+   LET y2 == [i \in 1..Len(y) |-> k[1] * y[i] + k[2]]  cd2 == CoefCD(X, y2)  rss2 == Rss(X, y2, cd2) IN
+   /\ Rat(cd2) = [a \in 1..Len(b) |-> IF a = 1 THEN RAdd(RMul(RI(k[1]), b[1]), RI(k[2])) ELSE RMul(RI(k[1]), b[a])]
+   /\ rss2 = RMul(RI(k[1] * k[1]), rss)                                                   \* so SDEC scales by |c|
+   /\ (IsZ(t) \/ R2Of(rss2, Tss(y2)) = R2Of(rss, t))                                      \* R2 unchanged
+\* invertible integer re-mixings of the predictors
+Mixes(p) == IF p = 1 THEN { <<<<2>>>>, <<<<-1>>>> } ELSE { <<<<2, 1>>, <<1, 1>>>>, <<<<1, -1>>, <<1, 1>>>> }
 MixX(X, M) == [i \in 1..Len(X) |-> [j \in 1..Len(M[1]) |-> SumInt([h \in 1..Len(M) |-> X[i][h] * M[h][j]])]]
-ThRemix(X, y) == LET b == Coef(X, y) IN \A M \in Mixes(Len(X[1])) :
-   LET X2 == MixX(X, M)  b2 == Coef(X2, y) IN
-   /\ Fitted(X2, b2) = Fitted(X, b)
+ThRemix(X, y, cd) == LET f == Fitted(X, cd)  b == Rat(cd) IN \A M \in Mixes(Len(X[1])) :
+   LET X2 == MixX(X, M)  cd2 == CoefCD(X2, y)  b2 == Rat(cd2) IN
+   /\ Fitted(X2, cd2) = f
    /\ b2[1] = b[1]
    /\ \A h \in 1..Len(M) : b[h + 1] = RSum([j \in 1..Len(M[1]) |-> RMul(RI(M[h][j]), b2[j + 1])])      \* slopes = M . new slopes
-ThR2Range(X, y) == IsZ(Tss(y)) \/ LET r == R2(X, y, Coef(X, y)) IN RLeq(RZero, r) /\ RLeq(r, ROne)
+ThR2Range(X, y, cd) == IsZ(Tss(y)) \/ LET r == R2Of(Rss(X, y, cd), Tss(y)) IN RLeq(RZero, r) /\ RLeq(r, ROne)
 
 \* ---- generator ----------------------------------------------------------------------------------------------------
 VARIABLES cid, X, y, ok
 mvars == <<cid, X, y, ok>>
 Draw(n, p) == [i \in 1..n |-> [j \in 1..p |-> RandomElement(Vals)]]
 DrawY(n) == [i \in 1..n |-> RandomElement(Vals)]
+\* "all": the X are the initial states and the y are chosen in the first step, so that the workers share the enumeration
 Init == IF Mode = "all"
-        THEN /\ cid = 0 /\ X \in [1..NN -> [1..PP -> Vals]] /\ y \in [1..NN -> Vals] /\ ok = FullRank(X)
-        ELSE /\ cid = 0 /\ X = <<<<1>>, <<0>>, <<2>>>> /\ y = <<1, 0, 1>> /\ ok = TRUE
-Next == /\ Mode = "sample" /\ cid < Samples
-        /\ cid' = cid + 1
-        /\ \E n \in {RandomElement(3..5)}, p \in {RandomElement(1..2)} : X' = Draw(n, p) /\ y' = DrawY(n)   \* singleton sets: one draw each
-        /\ ok' = FullRank(X')
+        THEN /\ cid = 0 /\ X \in [1..NN -> [1..PP -> Vals]] /\ y = [i \in 1..NN |-> 0] /\ ok = FALSE
+        ELSE /\ cid \in {c * Samples : c \in 0..(Chains - 1)} /\ X = <<<<1>>, <<0>>, <<2>>>> /\ y = <<1, 0, 1>> /\ ok = TRUE
+NextAll == /\ Mode = "all" /\ cid = 0 /\ cid' = 1
+           /\ X' = X /\ y' \in [1..NN -> Vals] /\ ok' = FullRank(X)
+NextSample == /\ Mode = "sample" /\ (cid + 1) % Samples # 0
+              /\ cid' = cid + 1
+              /\ \E n \in {RandomElement(3..5)}, p \in {RandomElement(1..2)} : X' = Draw(n, p) /\ y' = DrawY(n)   \* singleton sets: one draw each
+              /\ ok' = FullRank(X')
+Next == NextAll \/ NextSample
 Spec == Init /\ [][Next]_mvars
 
-Theorems == ok => /\ ThNormal(X, y) /\ ThMinimal(X, y) /\ ThRecover(X) /\ ThAffine(X, y) /\ ThRemix(X, y) /\ ThR2Range(X, y)
+Theorems == ok => LET cd == CoefCD(X, y) IN
+   /\ ThSolvers(X, y, cd) /\ ThNormal(X, y, cd) /\ ThMinimal(X, y, cd) /\ ThRecover(X) /\ ThAffine(X, y, cd) /\ ThRemix(X, y, cd) /\ ThR2Range(X, y, cd)
 
 \* two fixed unseen objects per width, with their exact predictions
 Unseen(p) == IF p = 1 THEN <<<<3>>, <<-4>>>> ELSE <<<<3, -3>>, <<1, 4>>>>
-CaseRecord == LET b == Coef(X, y)  t == Tss(y) IN
-   [n |-> Len(X), p |-> Len(X[1]), X |-> X, y |-> y, b |-> b, fitted |-> Fitted(X, b), resid |-> Resid(X, y, b),
-    rss |-> Rss(X, y, b), tss |-> t, r2 |-> IF IsZ(t) THEN <<0, 0>> ELSE R2(X, y, b), sdec2 |-> Sdec2(X, y, b),
-    xnew |-> Unseen(Len(X[1])), pred |-> Fitted(Unseen(Len(X[1])), b)]
+CaseRecord == LET cd == CoefCD(X, y)  t == Tss(y)  r == Resid(X, y, cd)  rss == RssOf(r) IN
+   [n |-> Len(X), p |-> Len(X[1]), X |-> X, y |-> y, b |-> Rat(cd), fitted |-> Fitted(X, cd), resid |-> r,
+    rss |-> rss, tss |-> t, r2 |-> IF IsZ(t) THEN <<0, 0>> ELSE R2Of(rss, t), sdec2 |-> Sdec2Of(rss, Len(X)),
+    xnew |-> Unseen(Len(X[1])), pred |-> Fitted(Unseen(Len(X[1])), cd)]
 Emit == IF ok THEN PrintT("@@" \o ToJson(CaseRecord)) ELSE TRUE
 ====
